@@ -597,10 +597,14 @@ def barInit (o : Orc) (tag : Nat) (h : Heap) (s : Nat) (num den key : Int) : Hea
   let b := h.newBar { seq := s, num := num, den := den, key := key }  -- bar.py:17-20
   (barBody o tag b.1 s num den, b.2)
 
-/-- `Bar.copy()` (bar.py:56-59) -/
+/-- `Bar.copy()` (bar.py:57-66, second repair of D37): the channel for the copy's time signature is read off the bar's own
+    messages through `self.sequence.rel` (bar.py:59) — a stale relative view of the SOURCE bar's sequence is regenerated,
+    the only write to a cell that existed (if that read raises — both views stale — so does `copy()`: an end of the
+    history, not modelled) —, then the sequence is copied and a new bar constructed on the copy (bar.py:63-65) -/
 def barCopy (o : Orc) (tag : Nat) (h : Heap) (b : Nat) : Heap × Nat :=
   let c := h.bar b
-  let s := seqCopy h c.seq
+  let h0 := readRel o h c.seq
+  let s := seqCopy h0 c.seq
   barInit o tag s.1 s.2 c.num c.den c.key
 
 /-- `Bar.transpose(transpose_by)` (bar.py:64-70) -/
